@@ -650,6 +650,46 @@ def run(F, rep, tier):
             else:
                 rep.viol('R14.6', C.fn_key(b.path) + '|peek-loop-no-progress', 'a peek()-guarded loop can iterate without consuming: the interpreter hangs on terminating input', c.loc())
     rep.floor('R14.6', 'peek loops', n6, 3)
+    # ---------------- R14.12
+    rep.rule('R14.12', 'streams counted by the draining default `Stream::len` (no own `len`) stop after an error: in their `next`, every path '
+             'that returns Some(Err(_)) also changes the stream\'s own state (a store to a field of self, or a call of one of its own &mut self '
+             'methods) - a source such as iterate(x, f) repeats its error on every call, so a wrapper that passes the error on without '
+             'latching it makes `len` (and unpacking, `only`, zip\'s length checks) loop forever')
+    n12 = 0
+    for imp in [i for i in F.impls if i['trait'] == 'core::Stream']:
+        ty = imp['self_ty']
+        its = [i for i in F.impls if i['trait'] == 'std::iter::Iterator' and i['self_ty'] == ty]
+        nx = F.impl_fn(its[0], 'next') if its else None
+        if F.impl_fn(imp, 'len') or not (nx and F.has_fn(nx)):
+            continue
+        nb = F.body(nx)
+        base = ty.split('<')[0]
+        latch = set()
+        for bb in nb.reach:
+            for s_ in nb.stmts(bb):
+                if s_[0] == 'a' and len(s_[1]) >= 3 and s_[1][0] == 1 and s_[1][1] == '*':
+                    latch.add(bb)
+        for c in nb.calls:
+            fn_ = F.fns.get(c.target)
+            if fn_ and c.args and str((fn_.get('inputs') or [''])[0]).startswith('&mut ' + base) and any(r_[0] == 'param' and r_[1] == 1 for r_ in nb.roots(c.args[0])):
+                latch.add(c.bb)
+        rets = {i for i in nb.reach if nb.term(i)[0] == 'ret'}
+        k = 0
+        for bb, s_ in nb.aggregates(nb.reach):
+            if s_[2][4] != 'Some':
+                continue
+            pay = set()
+            for o in s_[2][5]:
+                pay |= origins(nb, o)
+            if not any(o[0] == 'agg' and o[2] == 'Err' for o in pay):
+                continue
+            k += 1
+            n12 += 1
+            if bb in latch or nb.every_path_passes(0, {bb}, latch) or nb.every_path_passes(bb, rets, latch):
+                rep.ok('R14.12', '%s::next error exit #%d' % (base, k), 'latched')
+            else:
+                rep.viol('R14.12', '%s|next|error-not-latched' % base, '%s::next can return Some(Err(_)) on a path that leaves the stream\'s state untouched: over a source that repeats its error (iterate) the inherited draining `len` never ends' % base, nb.loc(bb))
+    rep.floor('R14.12', 'Some(Err) exits of streams without their own len', n12, 6)
     rep.undecided += ['termination in general', 'stack exhaustion by deep recursion (parser, evaluate, Drop of deep values)',
                       'panics inside dependencies on valid inputs', 'OOM / very long runs for legitimately huge results (10^(2^31), len of astronomically large streams)']
     return META
